@@ -355,6 +355,8 @@ def explore_twin(case):
         if wa[0] != TWIN_EVENTS[first]:
             continue
         for wb in words:
+            if len(res.fails) >= 6:
+                return res  # enough counterexamples from this unit (state leaking between cores also makes every further word slower)
             res.count("evaluations")
             res.count("transitions", len(wa) + len(wb))
             res.count("states", len(wa) + len(wb))
@@ -416,6 +418,8 @@ def explore_bus(case):
     nwords = 0
     for d in range(1, depth + 1):
         for tail in itertools.product(evs, repeat=d - 1):
+            if len(res.fails) >= 12:
+                return res  # enough counterexamples from this unit
             word = (evs[first],) + tail
             nwords += 1
             has_run = any(e.startswith("run") for e in word)
@@ -521,6 +525,8 @@ def explore_est(case):
     evs = [(s, d) for s in ("imu", "mag") for d in DTS]
     for d in range(1, depth + 1):
         for tail in itertools.product(evs, repeat=d - 1):
+            if len(res.fails) >= 12:
+                return res
             word = (evs[first],) + tail
             res.count("evaluations")
             res.count("transitions", len(word))
@@ -679,6 +685,6 @@ class _Est:
         return explore_est(case)
 
 
-SUBCHECKS = {"bus": _Bus(), "est": _Est(), "estparams": _EstP(), "longlog": _LongLog(), "twin": _Twin()}
+SUBCHECKS = {"twin": _Twin(), "bus": _Bus(), "est": _Est(), "estparams": _EstP(), "longlog": _LongLog()}
 REPLAY = {"bus": lambda c: explore_bus(c).fails, "est": lambda c: explore_est(c).fails, "estparams": lambda c: explore_estparams(c).fails,
           "longlog": lambda c: explore_longlog(c).fails, "twin": lambda c: explore_twin(c).fails}
